@@ -32,6 +32,7 @@ Definition zip_cols (total : nat) (cols : list (list nat)) : option (list (list 
 
 Definition snake_cyclers (lens : list nat) (flags : list bool) : option (list (list nat)) :=
   if negb (length lens =? length flags) then None           (* ValueError *)
+  else if (length lens =? 0) then None                      (* reduce() of an empty list: TypeError *)
   else if negb (existsb (fun b => b) (tl flags)) then Some (product lens)
   else zip_cols (prodl lens)
          (map (fun p => axis_col lens (fst p) (snd p)) (combine (seq 0 (length lens)) flags)).
@@ -46,5 +47,10 @@ Definition idx (lens : list nat) (flags : list bool) (k t : nat) : nat :=
   then nth k lens 0 - 1 - digit lens k t else digit lens k t.
 Definition point (lens : list nat) (flags : list bool) (t : nat) : list nat :=
   map (fun k => idx lens flags k t) (seq 0 (length lens)).
+
+(* specification vocabulary used by Props/C26.v *)
+Definition valid_lens (lens : list nat) : Prop := lens <> [] /\ Forall (fun L => 1 <= L) lens.
+Definition adj (a b : nat) : Prop := a = b + 1 \/ b = a + 1.       (* differ by exactly one *)
+Definition coord (p : list nat) (k : nat) : nat := nth k p 0.
 
 Definition olln_beq := option_beq llnat_beq.
